@@ -15,8 +15,8 @@ Definition ex_strat : strategy := fun p =>
   match p with
   | r1 :: r2 :: _ =>
       match r_seq r1 with
-      | 65 :: rest => Accept [mkArec [49] (fastq_text (r_header r1 ++ [59; 88]) rest [43] (tl (r_qual r1)));
-                              mkArec [49] (fastq_text (r_header r2 ++ [59; 88]) (r_seq r2) [43] (r_qual r2))]
+      | 65 :: rest => Accept [mkArec true [49] (fastq_text (r_header r1 ++ [59; 88]) rest [43] (tl (r_qual r1)));
+                              mkArec true [49] (fastq_text (r_header r2 ++ [59; 88]) (r_seq r2) [43] (r_qual r2))]
       | 67 :: _ => Reject [98; 99]
       | _ => Raise [73; 69]
       end
@@ -70,6 +70,28 @@ Lemma reject_crash_example :
     res_crashed res = true /\ filter (lab_eqb 1 0) (res_trace res) = [] /\ filter (lab_eqb 2 0) (res_trace res) = [].
 Proof.
   exists [ex_strat], (fun _ _ => HRaise), (ex_cfg false), ex_pairs. vm_compute. repeat split; reflexivity.
+Qed.
+
+(* the hypothesis step_ok excludes a PARTIAL write: if the first mate of an accepted pair is written and serialising the
+   second raises (ValueError), FastqHandle.write has already put R1 into the demultiplexed output; the generic arm then
+   puts both mates into the rejects: the pair is in both outputs and R1/R2 of the target fall out of step.  The
+   correspondence check therefore treats a partial write of the real code as a violation. *)
+Definition ex_partial : strategy := fun p =>
+  match p with
+  | r1 :: _ => Accept [mkArec true [49] (fastq_text (r_header r1) (r_seq r1) [43] (r_qual r1)); mkArec false [] [86; 69]]
+  | _ => Raise [73; 69]
+  end.
+
+Lemma partial_write_refuted :
+  exists strats rejhdr cfg pairs,
+    c_legacy cfg = false /\ c_rejects cfg = true /\
+    let res := loader strats rejhdr cfg pairs in
+    res_crashed res = false /\
+    count_at (res_trace res) true 0 0 0 = 1%nat /\ count_at (res_trace res) false 0 0 0 = 1%nat /\
+    length (file_events (res_trace res) true [] 0) = 1%nat /\ length (file_events (res_trace res) true [] 1) = 0%nat /\
+    res_yields res = [0].
+Proof.
+  exists [ex_partial], ex_rejhdr, (ex_cfg false), [exA]. vm_compute. repeat split; reflexivity.
 Qed.
 
 (* the reader: R2 is one record short and R1 has a whitespace-only line where the third header should be *)
